@@ -79,6 +79,7 @@ def _c13(ctx):
     out.append(_x7(ctx, bounds.CODEC_FILES, 50, 35, 15))
     out.append(_x9(ctx, bounds.CODEC_FILES, 5, 200))
     out.append(_x10(ctx))
+    out.append(_x2v(ctx))
     # functions documented to give the strong guarantee (object unchanged when they throw)
     out.append(exc.rule_X3m(ctx, {NSP + 'NearestNeighbor::Initialize', NSP + 'NearestNeighbor::Load'}))
     return out
@@ -122,6 +123,13 @@ def _x10(ctx):
     r, nf, npaths = decode.rule_X10(ctx, X10_DECODERS, maxlen=(48 if ctx.tier == 'thorough' else 26))
     r.floor('decoders', nf, 3)
     r.floor('outputs x accepting paths x lengths', npaths, 150)
+    return r
+
+
+def _x2v(ctx):
+    from .rules import sizes
+    r, nfn, nsize = sizes.rule_X2v(ctx)
+    r.floor('container sizes checked', nsize, 500)
     return r
 
 
@@ -336,7 +344,7 @@ def _c19(ctx):
     i1.floor('guarded regions', nreg, 2)
     r6, n6 = exc.rule_X6(ctx, SCOPES['C19'])
     r6.floor('loops', n6, 40)
-    return [dsp, i1] + _exc_rules(ctx, 'C19', with_lookup=False) + [r6]
+    return [dsp, i1] + _exc_rules(ctx, 'C19', with_lookup=False) + [r6, _x2v(ctx)]
 
 
 def _c20(ctx):
